@@ -13,7 +13,7 @@ if ! (go build ./... && go build -tags verif ./...) 2>/tmp/seed2_build_$id.log; 
 t=$(go test -vet=off -count=1 ./bint/ ./eth/ ./jrpc2/ ./shovel/config/ ./shovel/glf/ ./wctx/ ./wos/ ./wslog/ 2>&1 | grep -v "^ok")
 [ -n "$t" ] && { echo "$id: BASELINE FAILS: $t"; git checkout -q -- .; exit 2; }
 (bash $M/run_demo.sh >/tmp/seed2_demo_$id.patched.log 2>&1); r1=$?
-git checkout -q -- .
+git apply -R $M/patch.diff 2>/dev/null; git checkout -q -- .
 rest=$(git status --short | grep -v MUTANT)
 echo "$id: demo clean exit=$r0 patched exit=$r1; builds + baseline ok; leftover='$rest'"
 if [ $r0 -ne 0 ] || [ $r1 -eq 0 ]; then echo "$id: DEMONSTRATION NOT CONFIRMED"; exit 2; fi
@@ -24,5 +24,5 @@ for p in "$@"; do
   out=$(cd /verif && ./check $p 2>&1 | grep -E "VIOLATION|^C[0-9]+ tier" | cut -c1-330 | tr '\n' ' ')
   echo "seed $id: $p => $out"
 done
-git -C /repo checkout -- .
+git -C /repo apply -R /verif/seeded/$id/patch.diff 2>/dev/null; git -C /repo checkout -- .
 (cd /verif/harness && bin/extract >/dev/null; go build -tags verif -o bin/vcheck ./cmd/vcheck; cd /verif/lean && lake build driver >/dev/null 2>&1)
